@@ -3,7 +3,7 @@
 (* observation of the implementation must satisfy the reference semantics  *)
 (* of the case's kind.  All lines are judged; the set of rejected line     *)
 (* numbers is printed at the end ("BAD" line) - TLC decides every case.    *)
-EXTENDS TextMatch, ReMatch, Cond, ArenaFile, Limits, FieldMut, Json, IOUtils, TLC
+EXTENDS TextMatch, ReMatch, ReVM, Cond, ArenaFile, Limits, FieldMut, Json, IOUtils, TLC
 SH == INSTANCE SigHandler WITH Threads <- {1}, Scans <- 1, CountInsideIf <- FALSE, pc <- 0, left <- 0, mutex <- 0, usecount <- 0, installed <- FALSE, log <- << >>
 CQ == INSTANCE CliQueue WITH NFiles <- 1, Consumers <- {1}, Q <- 1, FinishTokens <- 1, NoMutex <- FALSE, ring <- 0, head <- 0, tail <- 0, used <- 0, unused <- 0,
                           qlock <- 0, pcP <- 0, todo <- << >>, pcC <- 0, got <- 0, scanned <- 0, overwritten <- FALSE
@@ -16,10 +16,15 @@ VARIABLES l, bad, known
 TraceLog == ndJsonDeserialize(IOEnv.TRACE)
 N == Len(TraceLog)
 
+\* the verdict of `matches` is also EXACTLY what the model of the engine (ReVM.tla) computes - also where D40 makes it differ
+\* from the documented semantics
+MatchesAsBuilt(c) == ("vm" \in DOMAIN c /\ c.vm /\ Supported(c.ast)) => c.obs = Matches(c.ast, c.buf, [nocase |-> c.nocase, dotall |-> c.dotall, wide |-> FALSE])
+
 CaseOK(c) ==
   CASE c.kind = "text" -> ObsOK(c.pat, c.mods, c.buf, c.obs)
     [] c.kind = "re"   -> StringObsOK(c)
-    [] c.kind = "matches" -> c.obs = MatchesOp(c.ast, c.buf, [nocase |-> c.nocase, dotall |-> c.dotall, wide |-> FALSE])
+    [] c.kind = "matches" -> /\ c.obs = MatchesOp(c.ast, c.buf, [nocase |-> c.nocase, dotall |-> c.dotall, wide |-> FALSE])
+                             /\ MatchesAsBuilt(c)
     [] c.kind = "cond" -> c.obs = Verdict(c.ast, c.env)
     [] c.kind = "load" -> c.ret = LoadBytes(c.file, c.n)
     [] c.kind = "corrupt" -> CorruptOK(c.ret)
@@ -42,7 +47,7 @@ CaseOK(c) ==
 KnownCase(c) ==
   CASE c.kind = "re" -> IF StringObsOK_D14(c) THEN "D14" ELSE IF StringObsOK_D12(c) THEN "D12"
                         ELSE IF StringObsOK_D17(c) THEN "D17" ELSE IF StringObsOK_D40(c) THEN "D40" ELSE "none"
-    [] c.kind = "matches" -> IF MatchesOK_D40(c) THEN "D40" ELSE "none"
+    [] c.kind = "matches" -> IF MatchesOK_D40(c) /\ MatchesAsBuilt(c) THEN "D40" ELSE "none"
     [] c.kind = "cond" -> IF HasUndefQuant(c.ast, c.env, NoLoc) THEN "D15"
                         ELSE IF HasUndefRange(c.ast, c.env, NoLoc) THEN "D19" ELSE "none"
     [] OTHER -> "none"
